@@ -49,6 +49,7 @@ def run(ctx):
     cfgs = [('sig', s, None, None) for s in ([1, 1], [1, -1], [0, 1], [1, 1, 1], [0, 1, 1], [1, -1, 1], [1, 1, 0])]
     cfgs += [('sig', [1, 1, 1, 1], None, None), ('sig', [0, 1, 1, 1], None, None), ('sig', [1, 1, 1, -1], None, None)]
     cfgs += [('custom', [0, 1, 1], None, ["e", "e1", "e2", "e0", "e20", "e01", "e12", "e012"])]
+    cfgs += [('sig', [1, 0, 0], None, None), ('sig', [0, 1, 0, 1], None, None), ('sig', [0, 0], None, None)]     # two or more null directions
     if not ctx.quick:
         cfgs += [('sig', s, None, None) for s in ([1, 1, 1, 1, 1], [0, 1, 1, 1, -1], [1, -1, -1, 1])]
         cfgs += [('custom', [1, -1, 0], None, random_custom_basis(rng, 3)) for _ in range(4)]
@@ -59,9 +60,14 @@ def run(ctx):
         d = alg.d
         desc = {'sig': sig, 'basis': basis}
         npat = (3 if d <= 3 else 2) if ctx.quick else 10
-        for _ in range(npat):
+        nullbits = sum(1 << i for i, sv in enumerate(alg.signature) if int(sv) == 0)
+        nullblades = [k for k in alg.canon2bin.values() if k & nullbits]
+        for ipat in range(npat + (2 if list(alg.signature).count(0) >= 2 else 0)):
             kx = [k for k in key_tuples(rng, d, 1, ['small', 'grades'])[0] or [1]][:4]
             ky = [k for k in key_tuples(rng, d, 1, ['small', 'grades'])[0] or [2]][:4]
+            if ipat >= npat:
+                # operands that store only blades containing a null basis vector (different ones on the two sides)
+                kx = rng.sample(nullblades, min(len(nullblades), 2)); ky = rng.sample(nullblades, min(len(nullblades), 2))
             kx = list(dict.fromkeys(kx)); ky = list(dict.fromkeys(ky))
             x0 = tracer_mv(alg, kx, 0); y0 = tracer_mv(alg, ky, 1000)
             xv = variants(rng, alg, kx, 0, full_layouts=True)
@@ -121,6 +127,7 @@ def run(ctx):
     registered_pass(ctx)
     highdim_inverse_pass(ctx)
     matrix_layout_pass(ctx)
+    expr_matrix_layout_pass(ctx)
     # the same element in different key orders through the by-name routes (wrapper, registered), incl. two-digit keys in d = 5, 6
     from harness.c09 import collision_search
     collision_search(ctx)
@@ -208,6 +215,38 @@ def matrix_layout_pass(ctx):
                         ctx.violation('storage-dependent', {**case, 'check': 'frommatrix(asmatrix(x)) == x'}, str(vals), str(back)[:200], key='asmatrix:roundtrip')
                 elif M.shape != ref.shape or not np.array_equal(M, ref):
                     ctx.violation('storage-dependent', case, str(ref.tolist())[:200], str(M.tolist())[:200], key='asmatrix:storage')
+                    break
+
+
+def expr_matrix_layout_pass(ctx):
+    """`expr_as_matrix(f, R, x)` with a numerical, array-valued R stored in different orders (canonical, permuted, with an explicit
+    zero scalar): the same matrix A at every sample"""
+    import numpy as np
+    from kingdon import MultiVector
+    from kingdon.matrixreps import expr_as_matrix
+    rng = ctx.rng
+    for sig in ([1, 1, 1], [0, 1, 1]):
+        alg = make_algebra(sig)
+        x = alg.vector(name='x')
+        g2 = [k for k in alg.canon2bin.values() if bin(k).count('1') == 2]
+        arrs = {k: np.array([float(rng.randint(1, 5)), float(rng.randint(1, 5))]) for k in g2}
+        layouts = {'canonical': list(g2), 'rotated': g2[1:] + g2[:1], 'reversed': list(reversed(g2)), 'zero-scalar-in-the-middle': [g2[0], 0] + g2[1:]}
+        for fname, f in (('R.cp(x)', lambda R, x: R.cp(x)), ('R >> x', lambda R, x: R >> x)):
+            ref = None
+            for lname, ks_ in layouts.items():
+                R = MultiVector.fromkeysvalues(alg, tuple(ks_), [arrs.get(k, np.zeros(2)) for k in ks_])
+                case = {'sig': sig, 'op': 'expr_as_matrix ' + fname, 'layout': lname, 'stored_keys': ks_}
+                ctx.case(case, tag='expr-matrix-layout')
+                try:
+                    A, y = expr_as_matrix(f, R, x)
+                    A = np.array([[np.broadcast_to(np.asarray(e, dtype=float), (2,)) for e in row] for row in A])
+                except Exception as ex:
+                    ctx.violation('storage-dependent', case, 'a matrix', 'raises ' + repr(ex)[:150], key='expr_as_matrix:storage:raises')
+                    continue
+                if ref is None:
+                    ref = A
+                elif A.shape != ref.shape or not np.allclose(A, ref):
+                    ctx.violation('storage-dependent', case, str(ref.tolist())[:200], str(A.tolist())[:200], key='expr_as_matrix:storage')
                     break
 
 
